@@ -18,8 +18,8 @@ pub struct VStore {
     pub terms: [u64; LMAX],
     /// entry type per slot (prost i32: 0 normal, 1 conf change, 2 conf change v2)
     pub etype: [i32; LMAX],
-    /// payload length of every stored entry (concrete per harness; payload bytes are zero)
-    pub data_len: usize,
+    /// payload length per slot (concrete per harness; payload bytes are zero)
+    pub dlen: [usize; LMAX],
     pub len: usize,
     pub hs: HardState,
     pub cs: ConfState,
@@ -39,7 +39,7 @@ impl VStore {
             snap_term,
             terms: [0; LMAX],
             etype: [0; LMAX],
-            data_len: 0,
+            dlen: [0; LMAX],
             len: 0,
             hs: HardState::default(),
             cs: ConfState::default(),
@@ -65,8 +65,9 @@ impl VStore {
         e.index = idx;
         e.term = self.terms[k];
         e.entry_type = self.etype[k];
-        if self.data_len > 0 {
-            e.data = vec![0u8; self.data_len];
+        // (k is concrete wherever this is called: entries() case-splits on the range length)
+        if self.dlen[k] > 0 {
+            e.data = vec![0u8; self.dlen[k]];
         }
         e
     }
@@ -83,6 +84,7 @@ impl VStore {
             assert!(self.len < LMAX, "VStore capacity (harness bound) exceeded");
             self.terms[self.len] = ents[i].term;
             self.etype[self.len] = ents[i].entry_type;
+            self.dlen[self.len] = ents[i].data.len();
             self.len += 1;
             i += 1;
         }
